@@ -170,36 +170,151 @@ theorem encContentValueW_spec (c : WCfg) (parent : Option Name) (s : Bytes) (st 
           | none => exact tail h2
 
 
-/-- `parse_text`: leaves only; neither code page nor the string table changes. -/
+theorem syncmlTypeText_nil (id : Nat) : syncmlTypeText id [] = [] := by
+  unfold syncmlTypeText
+  split
+  · have h1 : caseEq [] b!"application/vnd.syncml-devinf+xml" = false := by decide
+    have h2 : caseEq [] b!"application/vnd.syncml.dmtnds+xml" = false := by decide
+    simp [h1, h2]
+  · rfl
+
+theorem langOk_noexts {l : Lang} (h : langOk l = true) (hw : isWv l.id = false) : l.exts = none := by
+  cases hx : l.exts with
+  | none => rfl
+  | some x =>
+    have := langOk_exts h (by simp [hx])
+    rw [hw] at this; cases this
+
+/-- **Text is preserved by the value encoder** (generic path: every language but Wireless Village
+    and DRMREL, whose typed content is C12's subject): a reader whose string table resolves the
+    encoder's table reads back exactly the text (`syncmlTypeText` is the SyncML `+xml` → `+wbxml`
+    media-type rewriting), whether or not a string table is used and whatever it contains. -/
+theorem encContentValueW_text (c : WCfg) (parent : Option Name) (s : Bytes) (st st' : WSt)
+    (hs : nulFree s = true) (hl : langOk c.lang = true) (hnw : isWv c.lang.id = false)
+    (hnd : (c.lang.id == 1801) = false) (h : encContentValueW c parent s st = .ok st') :
+    ∃ items, st' = st.emit (serItems items) ∧ (∀ it ∈ items, Leaf c st.strtbl it) ∧
+      (s = [] → items = []) ∧
+      ∀ ctx : Ctx, Resolves ctx.tbl st.strtbl → ∀ own pg,
+        (s ≠ [] → charsCat (evItems ctx own pg items).1 = syncmlTypeText c.lang.id s) ∧
+        (evItems ctx own pg items).1.flatMap toks = (syncmlTypeText c.lang.id s).map .ch := by
+  unfold encContentValueW at h
+  split at h
+  · rename_i he
+    injection h with h; subst h
+    have hse : s = [] := List.isEmpty_iff.mp he
+    exact ⟨[], by rw [serItems_nil, emit_nil], (by intro it hit; cases hit), fun _ => rfl,
+      fun _ _ _ _ => ⟨fun hne => absurd hse hne, by subst hse; rw [evItems_nil, syncmlTypeText_nil]; rfl⟩⟩
+  · simp only [hnw, Bool.false_eq_true, ↓reduceIte, hnd, langOk_noexts hl hnw] at h
+    have h' : (do
+        let l ← (if c.useStrtbl = true then splitByStrtbl st.strtbl [VElt.str (syncmlTypeText c.lang.id s)]
+          else pure [VElt.str (syncmlTypeText c.lang.id s)])
+        pure (emitVElts st l) : Except Err WSt) = .ok st' := h
+    have h0 : ∀ e ∈ [VElt.str (syncmlTypeText c.lang.id s)], (VOk c st.strtbl e ∧ notTok e) ∧ strOrRef e := by
+      intro e he
+      simp only [List.mem_cons, List.mem_nil_iff, or_false] at he
+      subst he
+      exact ⟨⟨nulFree_syncmlTypeText _ _ hs, trivial⟩, trivial⟩
+    have fin : ∀ l : List VElt, (∀ e ∈ l, (VOk c st.strtbl e ∧ notTok e) ∧ strOrRef e) →
+        (∀ tb, Resolves tb st.strtbl → l.flatMap (vval tb) = syncmlTypeText c.lang.id s) →
+        emitVElts st l = st' →
+        ∃ items, st' = st.emit (serItems items) ∧ (∀ it ∈ items, Leaf c st.strtbl it) ∧
+          (s = [] → items = []) ∧
+          ∀ ctx : Ctx, Resolves ctx.tbl st.strtbl → ∀ own pg,
+            (s ≠ [] → charsCat (evItems ctx own pg items).1 = syncmlTypeText c.lang.id s) ∧
+            (evItems ctx own pg items).1.flatMap toks = (syncmlTypeText c.lang.id s).map .ch := by
+      intro l hl hcat he
+      refine ⟨l.flatMap itemsOfVElt, ?_, flatMap_itemsOfVElt_leaf c st.strtbl l (fun e he => (hl e he).1.1), ?_, ?_⟩
+      · rw [← he]; exact emitVElts_content l (fun e he => (hl e he).1.2) st
+      · intro hse; rename_i hne; exact absurd (by rw [hse]; rfl) hne
+      · intro ctx hres own pg
+        refine ⟨fun _ => ?_, ?_⟩
+        · rw [evItems_velts ctx own pg l (fun e he => (hl e he).2), hcat ctx.tbl hres]
+        · rw [evItems_velts_toks ctx own pg l (fun e he => (hl e he).2), hcat ctx.tbl hres]
+    cases hu : c.useStrtbl with
+    | false =>
+      simp only [hu, Bool.false_eq_true, ↓reduceIte] at h'
+      have := ok_inj h'
+      exact fin _ h0 (fun tb _ => by simp [vval]) this
+    | true =>
+      simp only [hu, ↓reduceIte] at h'
+      obtain ⟨l2, hl2, h'⟩ := bind_ok' h'
+      have := ok_inj h'
+      have hcut : CutStable (fun e => (VOk c st.strtbl e ∧ notTok e) ∧ strOrRef e) :=
+        fun s i h => ⟨⟨⟨(vok_cut c st.strtbl s i h.1.1).1, trivial⟩, trivial⟩,
+          ⟨⟨(vok_cut c st.strtbl s i h.1.1).2, trivial⟩, trivial⟩⟩
+      have hl2ok := splitByStrtbl_all _ hcut st.strtbl (fun e he => ⟨⟨⟨e, he, rfl⟩, trivial⟩, trivial⟩) _ _ h0 hl2
+      refine fin l2 hl2ok ?_ this
+      intro tb hres
+      rw [splitByStrtbl_concat c st.strtbl tb hres st.strtbl (fun _ h => h) _ _ (fun e he => (h0 e he).1.1) hl2]
+      simp [vval]
+
+
+/-- The character data a text node stands for after the documented normalisations: white-space-only
+    text dropped and blanks trimmed unless white space is kept, the text read as a C string, the
+    SyncML `+xml` media types written as `+wbxml`. -/
+def normText (c : WCfg) (s : Bytes) : Bytes :=
+  if c.ignoreEmpty && s.all isSpaceC then []
+  else syncmlTypeText c.lang.id (cstrOf (if c.removeBlanks then stripBlanks s else s))
+
+/-- `parse_text`: leaves only; neither code page nor the string table changes; outside CDATA and
+    binary-flagged elements, in a language whose content is not typed, a reader gets exactly the
+    octets of `normText`. -/
 theorem encTextW_spec (c : WCfg) (parent : Option Name) (s : Bytes) (st st' : WSt) (hinv : StrInv st)
     (h : encTextW c parent s st = .ok st') :
     ∃ items, (∀ it ∈ items, Leaf c st.strtbl it) ∧ st'.out = st.out ++ serItems items ∧
       st'.tagPage = st.tagPage ∧ st'.attrPage = st.attrPage ∧ st'.strtbl = st.strtbl ∧
-      st'.strtblLen = st.strtblLen := by
+      st'.strtblLen = st.strtblLen ∧ st'.inCdata = st.inCdata ∧
+      (isWv c.lang.id = false → (c.lang.id == 1801) = false → langOk c.lang = true →
+        st.inCdata = false → isBinaryTag st.curTag = false →
+        ∀ ctx : Ctx, Resolves ctx.tbl st.strtbl → ∀ own pg,
+          (evItems ctx own pg items).1.flatMap toks = (normText c s).map .ch) := by
   have hA : ∀ k s', ({ st with textNo := st.textNo + 1 } : WSt).aliasWrite k s' = { st with textNo := st.textNo + 1 } :=
     fun k s' => aliasWrite_eq _ k s' hinv.noAlias
-  have nil : ∀ st1 : WSt, st1.out = st.out → st1.tagPage = st.tagPage → st1.attrPage = st.attrPage →
-      st1.strtbl = st.strtbl → st1.strtblLen = st.strtblLen →
-      ∃ items, (∀ it ∈ items, Leaf c st.strtbl it) ∧ st1.out = st.out ++ serItems items ∧
-      st1.tagPage = st.tagPage ∧ st1.attrPage = st.attrPage ∧ st1.strtbl = st.strtbl ∧
-      st1.strtblLen = st.strtblLen :=
-    fun st1 h1 h2 h3 h4 h5 => ⟨[], (by intro it hit; cases hit), by rw [serItems_nil, List.append_nil, h1], h2, h3, h4, h5⟩
   unfold encTextW at h
   simp only [hA, ite_self] at h
   split at h
-  · injection h with h; subst h
-    exact ⟨[.opaque s], by intro it hit; simp only [List.mem_cons, List.mem_nil_iff, or_false] at hit; subst hit; exact .opq s,
-      by rw [serItems_cons, serItems_nil, serItem_opq]; simp, rfl, rfl, rfl, rfl⟩
+  · rename_i hbin
+    injection h with h; subst h
+    refine ⟨[.opaque s], by intro it hit; simp only [List.mem_cons, List.mem_nil_iff, or_false] at hit; subst hit; exact .opq s,
+      by rw [serItems_cons, serItems_nil, serItem_opq]; simp, rfl, rfl, rfl, rfl, rfl, ?_⟩
+    intro _ _ _ _ hb
+    have : isBinaryTag st.curTag = true := hbin
+    rw [hb] at this; cases this
   · split at h
-    · injection h with h; subst h
-      exact nil _ rfl rfl rfl rfl rfl
-    · split at h
-      · split at h
+    · rename_i hskip
+      injection h with h; subst h
+      refine ⟨[], (by intro it hit; cases hit), by rw [serItems_nil, List.append_nil], rfl, rfl, rfl, rfl, rfl, ?_⟩
+      intro _ _ _ hcd _ ctx _ own pg
+      have hskip' : (!st.inCdata && c.ignoreEmpty && s.all isSpaceC) = true := hskip
+      rw [hcd] at hskip'
+      simp only [Bool.not_false, Bool.true_and] at hskip'
+      rw [evItems_nil]
+      simp [normText, hskip']
+    · rename_i hskip
+      split at h
+      · rename_i hcd1
+        have hcd1' : st.inCdata = true := hcd1
+        split at h
         · cases h
         · injection h with h; subst h
-          exact nil _ rfl rfl rfl rfl rfl
-      · obtain ⟨items, hst, hleaf⟩ := encContentValueW_spec c parent _ _ st' (nulFree_cstrOf _) h
-        subst hst
-        exact ⟨items, hleaf, rfl, rfl, rfl, rfl, rfl⟩
+          refine ⟨[], (by intro it hit; cases hit), by rw [serItems_nil, List.append_nil], rfl, rfl, rfl, rfl, rfl, ?_⟩
+          intro _ _ _ hcd _
+          rw [hcd1'] at hcd; cases hcd
+      · by_cases hp : isWv c.lang.id = false ∧ (c.lang.id == 1801) = false ∧ langOk c.lang = true
+        · obtain ⟨items, hst, hleaf, _, htxt⟩ :=
+            encContentValueW_text c parent _ _ st' (nulFree_cstrOf _) hp.2.2 hp.1 hp.2.1 h
+          subst hst
+          refine ⟨items, hleaf, rfl, rfl, rfl, rfl, rfl, rfl, ?_⟩
+          intro _ _ _ hcd _ ctx hres own pg
+          have hskip' : ¬ (!st.inCdata && c.ignoreEmpty && s.all isSpaceC) = true := hskip
+          rw [hcd] at hskip'
+          simp only [Bool.not_false, Bool.true_and] at hskip'
+          rw [(htxt ctx hres own pg).2]
+          simp only [normText, hskip', Bool.false_eq_true, ↓reduceIte, hcd, Bool.not_false, Bool.true_and]
+        · obtain ⟨items, hst, hleaf⟩ := encContentValueW_spec c parent _ _ st' (nulFree_cstrOf _) h
+          subst hst
+          refine ⟨items, hleaf, rfl, rfl, rfl, rfl, rfl, rfl, ?_⟩
+          intro h1 h2 h3
+          exact absurd ⟨h1, h2, h3⟩ hp
 
 end Wbxml.Lemmas.EncW
